@@ -363,6 +363,10 @@ def exec_crash(case):
     return out
 
 
+class _Starved(Exception):
+    pass
+
+
 def exec_client(case):
     '''the client side: comms.acquire() must block until the server says the
     lock is this client's, comms.release() must free it'''
@@ -392,7 +396,7 @@ def exec_client(case):
             for h in [c for c in w.all if c.told]:
                 w.do(['rel', h.idx] if case['how'] else ['drop', h.idx], out)
         if blocked[0] > case['free_after'] + NCLIENT + 3:
-            raise core.HarnessError('client never told it holds the lock')
+            raise _Starved()
         w.do(['adv', 3.0], out)
 
     sec.connect = connect
@@ -404,7 +408,14 @@ def exec_client(case):
         if held_before:
             out.nontrivial = True
             out.label('acquire-while-held')
-        s = w.comms.acquire('client')
+        try:
+            s = w.comms.acquire('client')
+        except _Starved:
+            out.fail('progress/client-starves',
+                     f'comms.acquire still blocked after {blocked[0]} poll '
+                     'periods although every holder released or died; '
+                     f'db_lock={w.ctx.db_lock}')
+            return out
         me = s.client
         w.pump(out, 'comms.acquire returned')
         others = [c.name for c in w.all if c.told and c is not me]
